@@ -73,6 +73,19 @@ def ceval(P, t, env, depth=0):
         raise Unknown("field")
     if op == "downcast":
         return ceval(P, t.a[0], env, depth + 1)
+    if op == "discr":
+        v = ceval(P, t.a[0], env, depth + 1)
+        if isinstance(v, tuple) and v and v[0] == "adt":
+            a = P.adts.get(v[1])
+            if a:
+                for vv in a["variants"]:
+                    if vv["name"] == v[2]:
+                        return vv.get("discr", vv["index"])
+        if v == NONE:
+            return 0
+        if isinstance(v, tuple) and v and v[0] == "some":
+            return 1
+        raise Unknown("discr")
     if op == "index":
         b = ceval(P, t.a[0], env, depth + 1)
         i = ceval(P, t.a[1], env, depth + 1)
@@ -129,6 +142,16 @@ def _call(P, t, env, depth):
     raw = t.a[1]
     short = n.split("::")[-1]
     A = lambda i: ceval(P, raw[i], env, depth + 1)
+    if n in ("From::from", "Into::into", "TryFrom::try_from", "TryInto::try_into", "FromStr::from_str") and len(raw) == 1 and len(t.a[0][1]) >= 2:
+        # a conversion implemented in the crate: `<T as From<U>>::from`
+        ga = t.a[0][1]
+        tgt, src = (ga[0], ga[1]) if n in ("From::from", "TryFrom::try_from") else (ga[1], ga[0])
+        tr = {"From::from": "From", "Into::into": "From", "TryFrom::try_from": "TryFrom", "TryInto::try_into": "TryFrom"}.get(n)
+        for key in (("<%s as %s<%s>>::%s" % (tgt, tr, src, "from" if tr == "From" else "try_from")) if tr else None, "<%s as FromStr>::from_str" % ga[0]):
+            g = P.fns.get(key) if key else None
+            if g is not None and not g.cfg.back_edges():
+                gev = evaluate(g)
+                return ceval(P, strip_sites(gev.ret), {T("param", 1, gev.pname(1)): A(0)}, depth + 1)
     if (n in ("Into::into", "From::from", "Clone::clone", "Deref::deref", "AsRef::as_ref", "Borrow::borrow", "slice::<impl [T]>::iter", "IntoIterator::into_iter", "Iterator::copied", "Iterator::cloned", "str::<impl str>::as_bytes", "ToOwned::to_owned") or (n.startswith("Option::") and short in ("copied", "cloned", "as_ref", "as_deref"))) and len(raw) == 1:
         g = P.fns.get(n)
         if g is None:
@@ -153,6 +176,11 @@ def _call(P, t, env, depth):
             return (o[0], _apply(P, f, [o[1]], depth))
         if isinstance(o, tuple):
             return tuple(_apply(P, f, [x], depth) for x in o)
+    if short in ("map_or", "map_or_else") and len(raw) == 3:
+        o = A(0)
+        if isinstance(o, tuple) and o and o[0] in ("some", "ok"):
+            return _apply(P, A(2), [o[1]], depth)
+        return A(1) if short == "map_or" else _apply(P, A(1), [], depth)
     if short in ("ok_or", "ok_or_else") and len(raw) == 2:
         o = A(0)
         return ("ok", o[1]) if o != NONE else ("err", None)
